@@ -7,7 +7,8 @@
   Lemmas: CelloProofs/Lemmas/Hdr.lean (invariant `WF`), HdrBody.lean (element headers), HdrRelease.lean (the collector's
   release paths: `finalise_spec`, `gcRem_spec`, `sweepLoop_spec`, `collect_spec` — nested deletions, rings, every pending
   order), HdrStep.lean (`wf_run`), HdrKeep.lean (`stable_run`: headers never change, non-heap objects are never released),
-  HdrRefuse.lean (a refused release returns the very same state; skipped operations are no-ops; `delrawTerritory`).
+  HdrRefuse.lean (a refused release returns the very same state; skipped operations are no-ops; `delrawTerritory`),
+  HdrType.lean (the type edge: `typeLost_false`; `sweep_mechanics`, `teardown_mechanics`).
 
   **What "all histories" means here.**  A history is any list of `Op`s.  Some calls are *left out*: the model's `step`
   answers `Obs.skip why`, the harness prints `skip why`, and the state is returned unchanged (`C19_skipped_ops_change_nothing`),
@@ -28,7 +29,7 @@
   Every model theorem is proved for all configurations that are `Sound`; `C19_current_source_sound` decides that the
   configuration read from the source that is in /repo now is `Sound`, and the `…_current` corollaries instantiate it.
 -/
-import CelloProofs.Lemmas.HdrRefuse
+import CelloProofs.Lemmas.HdrType
 
 namespace Cello.Hdr
 
@@ -588,94 +589,149 @@ theorem C19_release_once (cfg : Config) (hs : cfg.Sound = true) (ops : List Op) 
     ∀ id ∈ (run cfg St.init ops).freed, ∃ o, (run cfg St.init ops).get id = some o ∧ o.hdr.alloc = cfg.cHeap ∧ o.live = false :=
   ⟨(C19_reachable_wf cfg hs ops).once, (C19_reachable_wf cfg hs ops).freed⟩
 
-/-- **a collection releases every one of its victims, exactly once, and never touches a released block** (`ub`): in
-    every reachable state, for every set of victims and every layout of the registry — owner before owned, owned before
-    owner, rings, a Box that owns itself, victims deleted by the destructor of another victim while they wait on the
-    pending list — the run raises nothing, each victim is among the blocks it released, that list has no repetition and
-    nothing in it had been released before; afterwards no victim is registered and the pending list is empty.
-    The same function is the forced collection, the threshold collection of `GC_Set` and (`C19_teardown_releases_once`)
-    the teardown. -/
-theorem C19_sweep_releases_each_victim_once (cfg : Config) (hs : cfg.Sound = true) (ops : List Op) (victims order : List Nat) :
+/-- **the full statement about a collection** (forced, or the threshold collection of `GC_Set`): in every reachable state,
+    for every list of `victims` — registered, not roots, not an item of a live Tuple (that region is KF-C01-dangling-tuple-item
+    of property C01) — and every layout of the registry, the collection raises nothing and touches no released block (`ub`),
+    every victim is among the blocks it released, that list has no repetition and nothing in it had been released before;
+    afterwards no victim is registered and the pending list is empty.  The victims are whatever the collector finds
+    unreachable: a run-time Type object that only the headers of its instances refer to is one of them. -/
+def C19_sweep_releases_each_victim_once_statement (cfg : Config) : Prop :=
+  ∀ (ops : List Op) (victims order : List Nat),
     let s := run cfg St.init ops
     let r := s.sweep cfg victims order
-    r.2.2 = .ok ∧ (∀ v ∈ s.sweepVictims victims, v ∈ r.2.1) ∧ r.2.1.Nodup ∧ (∀ e ∈ r.2.1, e ∉ s.freed) ∧
-      (∀ v ∈ s.sweepVictims victims, r.1.isReg v = false) ∧ NoPend r.1 ∧ r.1.freed = s.freed ++ r.2.1 := by
+    (∀ v ∈ victims, (v, false) ∈ s.reg ∧ s.referenced v = false) →
+    s.sweepOutcome r.2.1 r.2.2 = .ok ∧ (∀ v ∈ victims, v ∈ r.2.1) ∧ r.2.1.Nodup ∧ (∀ e ∈ r.2.1, e ∉ s.freed) ∧
+      (∀ v ∈ victims, r.1.isReg v = false) ∧ NoPend r.1 ∧ r.1.freed = s.freed ++ r.2.1
+
+/-- **a collection releases every one of its victims, exactly once, and never touches a released block** — proved for every
+    collection that loses no Type (`typeLost = false`: no run-time Type object is released before, or under, a live object
+    of that type; the complement is exactly the territory of KF-C19-type-outlived, `C19_type_outlived_refuted`).
+    The victims are named explicitly: `victims` itself, each registered, not a root and not an item of a live Tuple — owner
+    before owned, owned before owner, rings, a Box that owns itself, victims deleted by the destructor of another victim
+    while they wait on the pending list, run-time Type objects that are not in use or whose instances are all released
+    before them in the same collection.  The step of the model (`Op.sweep`, and `Op.thr` alike) then goes to exactly that state.
+    `C19_collections_keep_types` gives a condition on the state before the collection that implies the hypothesis. -/
+theorem C19_sweep_releases_each_victim_once_partial (cfg : Config) (hs : cfg.Sound = true) (ops : List Op)
+    (victims order : List Nat)
+    (hv : ∀ v ∈ victims, (v, false) ∈ (run cfg St.init ops).reg ∧ (run cfg St.init ops).referenced v = false)
+    (hty : (run cfg St.init ops).typeLost ((run cfg St.init ops).sweep cfg victims order).2.1 = false) :
+    let s := run cfg St.init ops
+    let r := s.sweep cfg victims order
+    s.sweepOutcome r.2.1 r.2.2 = .ok ∧ (∀ v ∈ victims, v ∈ r.2.1) ∧ r.2.1.Nodup ∧ (∀ e ∈ r.2.1, e ∉ s.freed) ∧
+      (∀ v ∈ victims, r.1.isReg v = false) ∧ NoPend r.1 ∧ r.1.freed = s.freed ++ r.2.1 ∧
+      step cfg s (.sweep victims order) = (r.1, .swept "sweep" r.2.1 .ok) ∧
+      step cfg s (.thr victims order) = (r.1, .swept "thr" r.2.1 .ok) := by
   intro s r
   have F := facts_of_sound hs
   have hw : WF cfg s := C19_reachable_wf cfg hs ops
-  obtain ⟨hok, hw', hnp', hall, ⟨E, hE⟩, _, _, _, _, _⟩ :=
-    collect_spec F s (arrange order (s.sweepVictims victims)) hw (fun v hv => victims_registered hv)
-  have hr21 : r.2.1 = E := by
-    show (s.collect cfg _).1.freed.drop s.freed.length = E
-    exact drop_freed_of_ext hE
-  have hnd := hw'.once
-  rw [hE] at hnd
-  obtain ⟨_, hndE, hdisj⟩ := List.nodup_append.mp hnd
-  have hin : ∀ v ∈ s.sweepVictims victims, v ∈ E := by
-    intro v hv
-    have hv' := hall v ((mem_arrange order _ v).mpr hv)
-    rw [hE] at hv'
-    rcases List.mem_append.mp hv' with h | h
-    · obtain ⟨p, hp, e⟩ := mem_sweepVictims hv
-      obtain ⟨o, hg, _, hl⟩ := hw.reg p hp
-      obtain ⟨o', hg', _, hl'⟩ := hw.freed v h
-      rw [e] at hg; rw [hg] at hg'; cases hg'; rw [hl] at hl'; cases hl'
-    · exact h
-  refine ⟨hok, ?_, ?_, ?_, ?_, hnp', ?_⟩
-  · intro v hv; rw [hr21]; exact hin v hv
-  · rw [hr21]; exact hndE
-  · intro e he hes; rw [hr21] at he; exact hdisj e hes e he rfl
-  · intro v hv
-    cases hreg : r.1.isReg v with
-    | false => rfl
-    | true =>
-      obtain ⟨p, hp, e⟩ := isReg_true hreg
-      obtain ⟨o, hg, _, hl⟩ := hw'.reg p hp
-      obtain ⟨o', hg', _, hl'⟩ := hw'.freed v (by rw [hE]; exact List.mem_append_right _ (hin v hv))
-      rw [e] at hg
-      have : (s.collect cfg (arrange order (s.sweepVictims victims))).1.get v = some o := hg
-      rw [this] at hg'; cases hg'; rw [hl] at hl'; cases hl'
-  · show (s.collect cfg _).1.freed = s.freed ++ r.2.1
-    rw [hr21]; exact hE
+  obtain ⟨hok, hall, hnd, hnew, hunreg, hnp, hfr, _⟩ := sweep_mechanics F hw victims order
+  have hin : ∀ v ∈ victims, v ∈ s.sweepVictims victims := fun v hvv => mem_sweepVictims_of hvv (hv v hvv).1 (hv v hvv).2
+  refine ⟨?_, fun v hvv => hall v (hin v hvv), hnd, hnew, fun v hvv => hunreg v (hin v hvv), hnp, hfr, ?_, ?_⟩
+  · show (if s.typeLost r.2.1 = true then Outcome.ub else r.2.2) = .ok
+    rw [hty]; exact hok
+  · show (if s.typeLost r.2.1 = true then _ else _) = _
+    rw [hty]; simp only [Bool.false_eq_true, if_false]; rw [hok]
+  · show (if s.typeLost r.2.1 = true then _ else _) = _
+    rw [hty]; simp only [Bool.false_eq_true, if_false]; rw [hok]
 
-/-- **the teardown (`GC_Del`, from `Cello_Exit` at program exit) releases every collector-managed object that is not a
-    root, exactly once**, whatever the layout of the registry and whatever the destructors delete among themselves. -/
-theorem C19_teardown_releases_once (cfg : Config) (hs : cfg.Sound = true) (ops : List Op) (order : List Nat) :
+/-- **a condition on the state before the collection**: if no *registered* run-time Type object is in use — the types of the
+    live objects are static built-ins or were made with `new_raw(Type, ..)`, which the collector never sees — then no
+    collection and no teardown, whatever the victims and the layout, loses a Type.  (A registered Type in use that is not
+    among the released blocks — reachable from the roots, or root-registered — is fine as well: that is the hypothesis
+    `typeLost = false` itself, met by the examples below; what the release log of a collection contains beyond the victims
+    is what the destructors of Boxes delete, and a Box never owns a Type object: `St.ownable`.) -/
+theorem C19_collections_keep_types (cfg : Config) (hs : cfg.Sound = true) (ops : List Op) (victims order : List Nat)
+    (hreg : ∀ p ∈ (run cfg St.init ops).reg, (run cfg St.init ops).isTypeInUse p.1 = false) :
+    (run cfg St.init ops).typeLost ((run cfg St.init ops).sweep cfg victims order).2.1 = false ∧
+    (run cfg St.init ops).typeFirst ((run cfg St.init ops).teardown cfg order).2.1 = false := by
+  have F := facts_of_sound hs
+  have hw : WF cfg (run cfg St.init ops) := C19_reachable_wf cfg hs ops
+  constructor
+  · apply typeLost_false
+    intro e he
+    obtain ⟨p, hp, hpe⟩ := (sweep_mechanics F hw victims order).2.2.2.2.2.2.2 e he
+    rw [← hpe]; exact hreg p hp
+  · apply typeFirst_false
+    intro e he
+    obtain ⟨p, hp, hpe⟩ := (teardown_mechanics F hw order).2.2.2.2.2 e he
+    rw [← hpe]; exact hreg p hp
+
+/-- **the full statement about the teardown** (`GC_Del`, from `Cello_Exit` at program exit): it releases every
+    collector-managed object that is not a root, exactly once, and touches no released block, whatever the layout of the
+    registry and whatever the destructors delete among themselves. -/
+def C19_teardown_releases_once_statement (cfg : Config) : Prop :=
+  ∀ (ops : List Op) (order : List Nat),
     let s := run cfg St.init ops
     let r := s.teardown cfg order
-    r.2.2 = .ok ∧ (∀ p ∈ s.reg, p.2 = false → p.1 ∈ r.2.1) ∧ r.2.1.Nodup ∧ (∀ e ∈ r.2.1, e ∉ s.freed) ∧
+    s.teardownOutcome r.2.1 r.2.2 = .ok ∧ (∀ p ∈ s.reg, p.2 = false → p.1 ∈ r.2.1) ∧ r.2.1.Nodup ∧ (∀ e ∈ r.2.1, e ∉ s.freed) ∧
+      (∀ e ∈ r.2.1, ∃ o, s.get e = some o ∧ o.hdr.alloc = cfg.cHeap ∧ o.live = true)
+
+/-- **the teardown releases every collector-managed object that is not a root, exactly once** — proved for every teardown in
+    which no run-time Type object is released before an object of that type (`typeFirst = false`; the release order is the
+    slot order of the registry, which depends on addresses: a program cannot arrange it — KF-C19-type-outlived,
+    `C19_type_outlived_refuted`).  Run-time Type objects that are not in use, that are roots (`new_root(Type, ..)`), raw, or
+    that happen to come after all their instances are covered. -/
+theorem C19_teardown_releases_once_partial (cfg : Config) (hs : cfg.Sound = true) (ops : List Op) (order : List Nat)
+    (hty : (run cfg St.init ops).typeFirst ((run cfg St.init ops).teardown cfg order).2.1 = false) :
+    let s := run cfg St.init ops
+    let r := s.teardown cfg order
+    s.teardownOutcome r.2.1 r.2.2 = .ok ∧ (∀ p ∈ s.reg, p.2 = false → p.1 ∈ r.2.1) ∧ r.2.1.Nodup ∧ (∀ e ∈ r.2.1, e ∉ s.freed) ∧
       (∀ e ∈ r.2.1, ∃ o, s.get e = some o ∧ o.hdr.alloc = cfg.cHeap ∧ o.live = true) := by
   intro s r
   have F := facts_of_sound hs
   have hw : WF cfg s := C19_reachable_wf cfg hs ops
-  obtain ⟨hok, hw', _, hall, ⟨E, hE⟩, hfresh, _, _, _, _⟩ :=
-    collect_spec F s (arrange order s.exitVictims) hw (fun v hv => mem_exitVictims ((mem_arrange order _ v).mp hv))
-  have hr21 : r.2.1 = E := by
-    show (s.collect cfg _).1.freed.drop s.freed.length = E
-    exact drop_freed_of_ext hE
-  have hnd := hw'.once
-  rw [hE] at hnd
-  obtain ⟨_, hndE, hdisj⟩ := List.nodup_append.mp hnd
-  refine ⟨hok, ?_, by rw [hr21]; exact hndE, ?_, ?_⟩
-  · intro p hp hroot
-    have hv : p.1 ∈ s.exitVictims := by
-      simp only [St.exitVictims, List.mem_map, List.mem_filter]
-      exact ⟨p, ⟨hp, by simp [hroot]⟩, rfl⟩
-    have hv' := hall p.1 ((mem_arrange order _ p.1).mpr hv)
-    rw [hE] at hv'
-    rw [hr21]
-    rcases List.mem_append.mp hv' with h | h
-    · obtain ⟨o, hg, _, hl⟩ := hw.reg p hp
-      obtain ⟨o', hg', _, hl'⟩ := hw.freed p.1 h
-      rw [hg] at hg'; cases hg'; rw [hl] at hl'; cases hl'
-    · exact h
-  · intro e he hes; rw [hr21] at he; exact hdisj e hes e he rfl
-  · intro e he
-    rw [hr21] at he
-    rcases hfresh e (by rw [hE]; exact List.mem_append_right _ he) with h | ⟨p, hp, e'⟩
-    · exact absurd rfl (hdisj e h e he)
-    · obtain ⟨o, hg, hh, hl⟩ := hw.reg p hp
-      exact ⟨o, e' ▸ hg, hh, hl⟩
+  obtain ⟨hok, hall, hnd, hnew, hheap, _⟩ := teardown_mechanics F hw order
+  refine ⟨?_, hall, hnd, hnew, hheap⟩
+  show (if s.typeFirst r.2.1 = true then Outcome.ub else r.2.2) = .ok
+  rw [hty]; exact hok
+
+/-- what a collector operation reported (for the decidable statements below) -/
+def Obs.sweptOut : Obs → Option (String × List Nat × Outcome)
+  | .swept how ids out => some (how, ids, out)
+  | _ => none
+
+/-- `Foo = new(Type, "RT0", 16); a = new(Foo); b = new(Foo)` — a factory's type and two of its objects -/
+def typeWitnessOps : List Op := [.make 0 .new (.rtType 0 16), .make 1 .new (.rtObj 0 5), .make 2 .new (.rtObj 0 6)]
+
+/-- **refuted on this tree** (KF-C19-type-outlived): nothing in `GC_Recurse` / `GC_Mark_Item` follows the type pointer of a
+    header, and `GC_Sweep` releases in slot order.  On the three-operation history above, which contains no misuse:
+    * a collection that finds the Type unreachable (nothing but the headers of `a` and `b` refers to it) releases it under
+      its living instances: `type_of(a)` points into a freed block — the property's first sentence fails for a live object;
+    * a collection that finds all three unreachable, the Type first in slot order, finalises `a` after its Type;
+    * the teardown does the same whenever the Type's slot comes first (birth order here);
+    with the instances first in slot order the same collection and the same teardown are fine (each block once).
+    Both full statements are false for the code that exists. -/
+theorem C19_type_outlived_refuted :
+    ¬ C19_sweep_releases_each_victim_once_statement Config.current ∧
+    ¬ C19_teardown_releases_once_statement Config.current ∧
+    ((step Config.current (run Config.current St.init typeWitnessOps) (.sweep [0] [])).2.sweptOut = some ("sweep", [0], .ub) ∧
+     (step Config.current (run Config.current St.init typeWitnessOps) (.sweep [0, 1, 2] [])).2.sweptOut = some ("sweep", [0, 1, 2], .ub) ∧
+     (step Config.current (run Config.current St.init typeWitnessOps) (.exit [])).2.sweptOut = some ("exit", [0, 1, 2], .ub) ∧
+     (step Config.current (run Config.current St.init typeWitnessOps) (.sweep [0, 1, 2] [1, 2])).2.sweptOut = some ("sweep", [1, 2, 0], .ok) ∧
+     (step Config.current (run Config.current St.init typeWitnessOps) (.exit [2, 1])).2.sweptOut = some ("exit", [2, 1, 0], .ok) ∧
+     (step Config.current (run Config.current St.init typeWitnessOps) (.sweep [1, 2] [])).2.sweptOut = some ("sweep", [1, 2], .ok)) := by
+  refine ⟨?_, ?_, by decide, by decide, by decide, by decide, by decide, by decide⟩
+  · intro h
+    have := (h typeWitnessOps [0] [] (by decide)).1
+    revert this; decide
+  · intro h
+    have := (h typeWitnessOps []).1
+    revert this; decide
+
+/-- the hypotheses of the two `_partial` theorems are met by reachable states with run-time types **in use**: a root-registered
+    Type whose instances are collected; a registered Type that is not among the victims; instances and Type collected
+    together with the instances first; a raw Type (`C19_collections_keep_types` applies: nothing registered is a Type) -/
+example :
+    (let s := run Config.current St.init [.make 0 .newRoot (.rtType 0 16), .make 1 .new (.rtObj 0 5), .make 2 .new (.rtObj 0 6)]
+     s.isTypeInUse 0 = true ∧ s.typeLost (s.sweep Config.current [1, 2] []).2.1 = false ∧
+     s.typeFirst (s.teardown Config.current []).2.1 = false ∧ (s.teardown Config.current []).2.1 = [1, 2]) ∧
+    (let s := run Config.current St.init typeWitnessOps
+     s.isTypeInUse 0 = true ∧ s.typeLost (s.sweep Config.current [1] []).2.1 = false ∧
+     s.typeLost (s.sweep Config.current [0, 1, 2] [2, 1]).2.1 = false ∧ s.typeFirst (s.teardown Config.current [1, 2]).2.1 = false) ∧
+    (let s := run Config.current St.init [.make 0 .newRaw (.rtType 0 16), .make 1 .new (.rtObj 0 5),
+        .make 2 .new (.seq .array (.rt 0) [.raw 1, .raw 2])]
+     s.isTypeInUse 0 = true ∧ (∀ p ∈ s.reg, s.isTypeInUse p.1 = false) ∧ (s.teardown Config.current []).2.1 = [1, 2]) := by
+  decide
 
 /-- **a heap object deleted once is released once**: `del` of a live registered object in a reachable state raises
     nothing, removes it from the registry and releases its block — together with what its destructor deletes in turn, if
@@ -810,10 +866,11 @@ theorem C19_destruct_stack_box_releases_pointee :
   decide
 
 /-- **the same for an embedded object, at step level and for all histories**: a freeing operation applied to an element,
-    key or value of a live container returns the very same state — for `del_raw` / `destruct` provided the element's type has
-    no destructor (Int, run-time structs); Strings, Tuples and Arrays are the embedded territory of KF-C19-delraw-embedded. -/
+    key or value of a live container returns the very same state — for `del_raw` / `destruct` provided the element's destructor
+    frees nothing (`Scalar.dtorFrees = false`: Int, run-time structs, an **empty** Array — `Array_Del` frees a NULL backing
+    store); Strings, Tuples and Arrays with a backing store are the embedded territory of KF-C19-delraw-embedded, exactly. -/
 theorem C19_step_release_refused_unchanged_elem (cfg : Config) (hs : cfg.Sound = true) (ops : List Op) (t : Target) (o : Obj)
-    (e : Elem) (f : FreeOp) (hf : f = .delRaw ∨ f = .destruct → e.val.hasDestructor = false)
+    (e : Elem) (f : FreeOp) (hf : f = .delRaw ∨ f = .destruct → e.val.dtorFrees = false)
     (hget : (run cfg St.init ops).get t.id = some o) (hlive : o.live = true) (he : o.body.elemAt t = some e)
     (hnd : e.val.dangling = false) :
     (stepFree cfg (run cfg St.init ops) f t).1 = run cfg St.init ops ∧
@@ -858,8 +915,8 @@ theorem C19_step_release_refused_unchanged_elem (cfg : Config) (hs : cfg.Sound =
     | deallocRoot => simp [freeElem, hde]
     | del => simp [freeElem, F.delViaCollector]
     | delRoot => simp [freeElem, F.delViaCollector]
-    | destruct => simp [freeElem, destructElem_noDtor (hf (Or.inr rfl))]
-    | delRaw => simp [freeElem, destructElem_noDtor (hf (Or.inl rfl)), hde]
+    | destruct => simp [freeElem, destructElem_noFree (hf (Or.inr rfl))]
+    | delRaw => simp [freeElem, destructElem_noFree (hf (Or.inl rfl)), hde]
   have hstep : stepFree cfg s f t =
       (s.updBody t.id (fun b => b.setElemAt t (freeElem cfg f e).1), .did f.name (freeElem cfg f e).2 t) := by
     unfold stepFree
@@ -880,6 +937,7 @@ theorem C19_step_release_refused_unchanged_elem (cfg : Config) (hs : cfg.Sound =
     resulting state has the same object under every handle, the same registry and the same release log. -/
 theorem C19_step_inplace_refused_unchanged (cfg : Config) (hs : cfg.Sound = true) (ops : List Op) (id : Nat) (o : Obj)
     (ip : InPlace) (hrem : ∀ x, ip ≠ .rem x ∨ ∃ items, o.body = .tuple items)
+    (hnself : ip.srcs.contains id = false)
     (hget : (run cfg St.init ops).get id = some o) (hlive : o.live = true)
     (hcls : o.hdr.alloc = cfg.cStack ∨ o.hdr.alloc = cfg.cStatic)
     (hbody : (∃ t, o.body = .scalar (.str t)) ∨ ∃ items, o.body = .tuple items) :
@@ -914,34 +972,48 @@ theorem C19_step_inplace_refused_unchanged (cfg : Config) (hs : cfg.Sound = true
       (stepInplace cfg s ip (.obj id)).1.freed = s.freed ∧
       (∀ name out t, (stepInplace cfg s ip (.obj id)).2 = .did name out t → ∃ e, out = .raised e)
   have hstep : stepInplace cfg s ip (.obj id) =
-      if ip.srcs.contains id = true then (s, Obs.skip "self") else
       match inPlaceObj cfg s o ip with
       | none => (s, Obs.skip "unsupported")
       | some (b, out) => (s.updBody id (fun _ => b), Obs.did ip.name out (Target.obj id)) := by
     unfold stepInplace
-    simp only [Target.id, hget, hlive, Bool.not_true, Bool.false_eq_true, if_false]
-    by_cases hself : ip.srcs.contains id = true
-    · simp only [hself, if_true]
-    · simp only [hself]
-      cases inPlaceObj cfg s o ip with
-      | none => rfl
-      | some p => rfl
+    simp only [Target.id, hget, hlive, Bool.not_true, Bool.false_eq_true, if_false, hnself]
+    cases inPlaceObj cfg s o ip with
+    | none => rfl
+    | some p => rfl
   rw [hstep]
-  by_cases hself : ip.srcs.contains id = true
-  · rw [if_pos hself]
-    exact ⟨fun _ => rfl, rfl, rfl, fun _ _ _ h => by cases h⟩
-  · rw [if_neg hself]
-    cases hip : inPlaceObj cfg s o ip with
-    | none => exact ⟨fun _ => rfl, rfl, rfl, fun _ _ _ h => by cases h⟩
-    | some p =>
-      obtain ⟨b, out⟩ := p
-      obtain ⟨hb, e, he⟩ := hcase b out hip
-      subst hb he
-      refine ⟨hsame, rfl, rfl, ?_⟩
-      intro name out t h
-      have h' : Obs.did ip.name (Outcome.raised e) (Target.obj id) = Obs.did name out t := h
-      simp only [Obs.did.injEq] at h'
-      exact ⟨e, h'.2.1.symm⟩
+  cases hip : inPlaceObj cfg s o ip with
+  | none => exact ⟨fun _ => rfl, rfl, rfl, fun _ _ _ h => by cases h⟩
+  | some p =>
+    obtain ⟨b, out⟩ := p
+    obtain ⟨hb, e, he⟩ := hcase b out hip
+    subst hb he
+    refine ⟨hsame, rfl, rfl, ?_⟩
+    intro name out t h
+    have h' : Obs.did ip.name (Outcome.raised e) (Target.obj id) = Obs.did name out t := h
+    simp only [Obs.did.injEq] at h'
+    exact ⟨e, h'.2.1.symm⟩
+
+/-- **`assign(s, s)` of a String changes nothing and raises nothing, whatever the class of `s`** (fix 744a45f): `String_Assign`
+    leaves by `if (val is s->val) { return; }` before the allocation-class guard and before `realloc` — read from the source
+    (first conjunct: removing that line, or moving it after the guard or the `realloc`, makes it false).  In every reachable
+    state the step returns the very same state with outcome `ok`; a stack or static String is neither reallocated nor
+    refused.  (Operands that are views into the target's characters are KF-C16-alias-operand, property C16.) -/
+theorem C19_string_self_assign_is_noop (ops : List Op) (id : Nat) (o : Obj) (txt : String)
+    (hget : (run Config.current St.init ops).get id = some o) (hlive : o.live = true) (hbody : o.body = .scalar (.str txt)) :
+    Config.current.sAssignSelfReturns = true ∧
+    stepInplace Config.current (run Config.current St.init ops) (.assign id) (.obj id) =
+      (run Config.current St.init ops, .did "assign" .ok (.obj id)) := by
+  have hc : Config.current.sAssignSelfReturns = true := by decide
+  refine ⟨hc, ?_⟩
+  generalize run Config.current St.init ops = s at *
+  unfold stepInplace
+  simp [Target.id, hget, hlive, InPlace.srcs, hbody, hc]
+
+/-- a stack String assigned to itself: reachable, `ok`, unchanged -/
+example :
+    let s := run Config.current St.init [.make 0 .stack (.str "abc"), .inplace (.assign 0) (.obj 0)]
+    (s.get 0).map (fun o => (o.body, o.live, o.hdr.alloc)) = some (.scalar (.str "abc"), true, Config.current.cStack) ∧
+    (stepInplace Config.current s (.assign 0) (.obj 0)).2.didOut = some ("assign", .ok) := by decide
 
 /-! ## E. known findings on this tree (the model, which mirrors the code, violates the full statement) -/
 
@@ -1010,21 +1082,32 @@ example :
   refine ⟨by decide, by decide, by decide, by decide, by decide, by decide⟩
 
 /-- what is proved instead: every freeing operation leaves an embedded object exactly as it is, and never releases it,
-    unless it runs a destructor that exists — `del_raw` / `destruct` of an element whose type has one (String, Tuple, Array:
-    `Scalar.hasDestructor`; List, Table, Tree, Box and File elements are outside the model's universe and, having unguarded
-    destructors as well, inside the finding's). -/
+    unless it runs a destructor that frees a block — `del_raw` / `destruct` of a String, a Tuple or an Array that has a backing
+    store (`Scalar.dtorFrees`; an empty embedded Array is covered: `Array_Del` frees NULL and `dealloc` refuses.  List, Table,
+    Tree, Box and File elements are outside the model's universe and, having unguarded destructors as well, inside the
+    finding's). -/
 theorem C19_embedded_intact_partial (cfg : Config) (hs : cfg.Sound = true) (f : FreeOp) (e : Elem)
-    (h : (f ≠ .delRaw ∧ f ≠ .destruct) ∨ e.val.hasDestructor = false) : (freeElem cfg f e).1 = e := by
+    (h : (f ≠ .delRaw ∧ f ≠ .destruct) ∨ e.val.dtorFrees = false) : (freeElem cfg f e).1 = e := by
   have F := facts_of_sound hs
   cases f <;> simp only [freeElem, F.delViaCollector, if_true]
   case delRaw =>
     rcases h with h | h
     · exact absurd rfl h.1
-    · rw [destructElem_noDtor h]; split <;> rfl
+    · rw [destructElem_noFree h]; split <;> rfl
   case destruct =>
     rcases h with h | h
     · exact absurd rfl h.2
-    · rw [destructElem_noDtor h]
+    · rw [destructElem_noFree h]
+
+/-- the empty embedded Array is inside the hypothesis and reachable: `outer = new_raw(Array, Array, new_raw(Array, Int))`,
+    `del_raw(get(outer, 0))` raises ResourceError and leaves the element as it was; with one element it is the finding -/
+example :
+    (Scalar.arr []).dtorFrees = false ∧ (Scalar.arr [7]).dtorFrees = true ∧
+    freeElem Config.current .delRaw (seqElem Config.current St.init .array .array (.arr [])) =
+      (seqElem Config.current St.init .array .array (.arr []), .raised "ResourceError") ∧
+    (run Config.current St.init [.make 0 .newRaw (.seq .array .array [.arr []]), .free .delRaw (.elem 0 0), .free .destruct (.elem 0 0)]).elemOf (.elem 0 0) =
+      some (seqElem Config.current St.init .array .array (.arr [])) := by
+  decide
 
 /-- **the proposed repair closes the finding**: if `del_by` refuses an object whose class is not `heap` before it calls the
     destructor (`Config.delRawClassFirst`; the translator reads it from `del_by`, it is `false` on this tree), both full
@@ -1065,6 +1148,26 @@ theorem C19_tree_value_header_aligned_partial (cfg : Config) (ksize : Nat) (h : 
 theorem C19_del_of_stack_object_raises_refuted :
     freeElem Config.current .del { hdr := headerInit Config.current .int Config.current.bStack, cap := 8, val := .int 7 } =
       ({ hdr := headerInit Config.current .int Config.current.bStack, cap := 8, val := .int 7 }, .ok) := by decide
+
+/-- The full statement "`copy` hands out an object of the source's type" for the view objects of src/Iter.c -/
+def C19_copy_view_statement : Prop :=
+  ∀ name ∈ ["Range", "Slice", "Zip", "Filter", "Map"], copyViewOutcome name = some .ok
+
+/-- **refuted on this tree** (KF-C19-copy-view): none of the view types has a `Copy` instance, so `copy(v)` is
+    `assign(alloc(type_of(v)), v)`; `Range_Assign`, `Slice_Assign` and `Zip_Assign` assign into `r->value`, `s->range`,
+    `z->iters` / `z->values`, which are NULL in the zeroed object `alloc` returns: `type_of(NULL)` raises ValueError.
+    `copy(range($I(5)))`, `copy(new(Slice, a, $I(1)))`, `copy(zip(a, a))` hand out no object at all.  The table is read
+    from Iter.c on every run: a `Copy` instance, or an Assign that creates the sub-object first, makes this theorem fail. -/
+theorem C19_copy_view_refuted :
+    ¬ C19_copy_view_statement ∧
+    copyViewOutcome "Range" = some (.raised "ValueError") ∧ copyViewOutcome "Slice" = some (.raised "ValueError") ∧
+    copyViewOutcome "Zip" = some (.raised "ValueError") := by
+  refine ⟨fun h => ?_, by decide, by decide, by decide⟩
+  have := h "Range" (by decide)
+  revert this; decide
+
+/-- what is proved instead: Filter and Map objects (no Assign instance: the struct is copied) are copied -/
+theorem C19_copy_view_partial : ∀ name ∈ ["Filter", "Map"], copyViewOutcome name = some .ok := by decide
 
 /-- two registered Boxes that own each other -/
 def ringOps : List Op := [.make 0 .alloc (.box none), .make 1 .alloc (.box none), .own 0 (some 1), .own 1 (some 0)]
